@@ -2,7 +2,9 @@ package main
 
 import (
 	"fmt"
+	"go/constant"
 	"go/types"
+	"math"
 	"strconv"
 	"strings"
 )
@@ -454,7 +456,14 @@ func (e *EvalCtx) loadVia(hv HeapView, p Ptr) Val {
 	if p.Idx != "" {
 		arr := hv(p.Key, arrSort("Int", arrSort("Int", srt)))
 		e.f.s.entryClosure(p.Key, p.Elem, true)
-		return S{app("select", app("select", arr, p.Ref), p.Idx), p.Elem}
+		t := app("select", app("select", arr, p.Ref), p.Idx)
+		if isInt(p.Elem) {
+			if bits, signed := intBits(p.Elem); bits == 64 && !signed {
+				// memory cells of an unsigned 64-bit type hold values of that type: reading through wrap makes the range visible inside quantifiers
+				t = wrapTo(p.Elem, t)
+			}
+		}
+		return S{t, p.Elem}
 	}
 	arr := hv(p.Key, arrSort("Int", srt))
 	e.f.s.entryClosure(p.Key, p.Elem, false)
@@ -709,6 +718,27 @@ func (e *EvalCtx) call(n *XNode) Val {
 	case "isinf":
 		need(1)
 		return S{app("f_isinf", e.evalS(args[0]).T), boolT}
+	case "hasprefix":
+		need(2)
+		st := e.evalS(args[0])
+		if args[1].Op != "str" {
+			e.fail("hasprefix: second argument must be a string literal")
+		}
+		lit, _ := strconv.Unquote(args[1].Val)
+		cs := []string{app(">=", app("slen", st.T), num(int64(len(lit))))}
+		for i := 0; i < len(lit); i++ {
+			cs = append(cs, eq(app("sat", st.T, num(int64(i))), num(int64(lit[i]))))
+		}
+		return S{and(cs...), boolT}
+	case "maxfloat32":
+		need(0)
+		return S{e.f.s.floatConst(constant.MakeFloat64(math.MaxFloat32)), types.Typ[types.Float64]}
+	case "maxfloat64":
+		need(0)
+		return S{e.f.s.floatConst(constant.MakeFloat64(math.MaxFloat64)), types.Typ[types.Float64]}
+	case "fneg":
+		need(1)
+		return S{app("f_neg", e.evalS(args[0]).T), types.Typ[types.Float64]}
 	case "pow2":
 		need(1)
 		return S{app("pow2", e.evalS(args[0]).T), intT}
